@@ -14,6 +14,17 @@ def subsets(ts):
     return [list(c) for n in range(1, len(ts) + 1) for c in itertools.combinations(ts, n)]
 
 
+LIT_PRELUDE = '''
+use ::std::cell::Cell;
+thread_local! { pub static CNT: Cell<u32> = Cell::new(0); }
+pub fn cnt() -> u32 { CNT.with(|c| c.replace(0)) }
+pub fn counted_eq(a: &u8, b: &u8) -> bool { CNT.with(|c| c.set(c.get() + 1)); a == b }
+pub fn counted_pcmp(a: &u8, b: &u8) -> Option<Ordering> { CNT.with(|c| c.set(c.get() + 1)); a.partial_cmp(b) }
+pub fn counted_cmp(a: &u8, b: &u8) -> Ordering { CNT.with(|c| c.set(c.get() + 1)); a.cmp(b) }
+pub fn feed<T: Hash>(t: &T) -> String { let mut h = Rec(String::new()); t.hash(&mut h); h.0 }
+'''
+
+
 class CmpProp(Prop):
     """shared by C01 / C06 / C02: builds types, runs them against the real macro, compares with the
     Python reference of the documented rule"""
@@ -242,8 +253,32 @@ class CmpProp(Prop):
                                         observed=[(k, v[:40]) for k, v in got]))
         for name, _ in batches:
             l2.cleanup(name)
-        return dict(evaluations=len(mods), validated=validated, programs=len(mods), observations=pairs,
+        # hand-written programs (no model counterpart): (text, source, expected lines)
+        class _Lit:
+            def __init__(self, text):
+                self.text, self.meta = text, dict(nontrivial=True)
+            def input_text(self):
+                return self.text
+        lits = [l2.Module(9 * 10 ** 6 + k, src.replace('@ID@', str(9 * 10 ** 6 + k)), (_Lit(text), want))
+                for k, (text, src, want) in enumerate(self.literal_programs())]
+        if lits:
+            exe = l2.compile_batch(self.batch + 'lit', lits, prelude=G.PRELUDE + G.P_TYPE + LIT_PRELUDE)
+            lobs = l2.run_exe(exe)[1] if exe else {}
+            for mo in lits:
+                lit, want = mo.meta
+                got = [tuple(x) for x in lobs.get(str(mo.cid), [])]
+                if not mo.compiled or got != want:
+                    failures.append(dict(**{'class': 'comparison-differs-from-documented-rule', 'mode': 'literal'}, input=lit.input_text(),
+                                         expected=[list(w) for w in want],
+                                         observed=[d['message'] for d in mo.diags if d['level'] == 'error'][:3] or [list(g) for g in got]))
+                else:
+                    validated += 1
+            l2.cleanup(self.batch + 'lit')
+        return dict(evaluations=len(mods) + len(lits), validated=validated, programs=len(mods) + len(lits), observations=pairs,
                     failures=failures, samples=samples)
+
+    def literal_programs(self):
+        return []
 
 
 class C01(CmpProp):
@@ -259,4 +294,25 @@ class C01(CmpProp):
     assumptions = ['reading of Rust match / return / && built into SemCmp.v (validated by the compiled programs)']
 
 
+def _c01_literals():
+    out = []
+    for mi, head in enumerate(('#[::derive_ex::derive_ex(%s)]', '#[derive(::derive_ex::Ex)] #[derive_ex(%s)]')):
+        tl = 'PartialEq, PartialOrd, Eq, Ord'
+        for decl, mk in (('pub struct X(pub u8, #[partial_eq(by = counted_eq)] #[partial_ord(by = counted_pcmp)] #[ord(by = counted_cmp)] pub u8, pub u8);', 'X(%d, %d, 0)'),
+                         ('pub enum X { A, B { a: u8, #[partial_eq(by = counted_eq)] #[partial_ord(by = counted_pcmp)] #[ord(by = counted_cmp)] b: u8 } }', 'X::B { a: %d, b: %d }')):
+            v = lambda a, b: mk % (a, b)
+            src = (head % tl) + '\n' + decl + '\npub fn run() {\n' + \
+                '    let _ = cnt(); let r = %s == %s; println!("@ID@\\teq-decided-early\\t{} {}", r, cnt());\n' % (v(0, 1), v(1, 1)) + \
+                '    let r = %s == %s; println!("@ID@\\teq-reaches-it\\t{} {}", r, cnt());\n' % (v(0, 1), v(0, 2)) + \
+                '    let r = %s.partial_cmp(&%s); println!("@ID@\\tpcmp-decided-early\\t{:?} {}", r, cnt());\n' % (v(0, 1), v(1, 1)) + \
+                '    let r = %s.partial_cmp(&%s); println!("@ID@\\tpcmp-reaches-it\\t{:?} {}", r, cnt());\n' % (v(0, 1), v(0, 2)) + \
+                '    let r = %s.cmp(&%s); println!("@ID@\\tcmp-decided-early\\t{:?} {}", r, cnt());\n' % (v(2, 1), v(1, 1)) + \
+                '    let r = %s.cmp(&%s); println!("@ID@\\tcmp-reaches-it\\t{:?} {}", r, cnt());\n}' % (v(0, 2), v(0, 1))
+            want = [('eq-decided-early', 'false 0'), ('eq-reaches-it', 'false 1'), ('pcmp-decided-early', 'Some(Less) 0'),
+                    ('pcmp-reaches-it', 'Some(Less) 1'), ('cmp-decided-early', 'Greater 0'), ('cmp-reaches-it', 'Greater 1')]
+            out.append(((head % tl).replace('::derive_ex::', '') + ' ' + decl + '   [a field after the deciding one is not compared: its `by` function is not called]', src, want))
+    return out
+
+
+C01.literal_programs = lambda self: _c01_literals()
 PROP = C01()
